@@ -234,6 +234,17 @@ def parse_pred(node, frame, resolve):
         if col is None:
             return None
         return {(col, "==" if isinstance(node.ops[0], ast.Eq) else "!=", resolve(val))}
+    # an ordering comparison on a column is a condition too (never the one a report cell should use, but readable)
+    if isinstance(node, ast.Compare) and len(node.ops) == 1 and isinstance(node.ops[0], (ast.Lt, ast.LtE, ast.Gt, ast.GtE)):
+        txt = {ast.Lt: "<", ast.LtE: "<=", ast.Gt: ">", ast.GtE: ">="}[type(node.ops[0])]
+        flip = {"<": ">", "<=": ">=", ">": "<", ">=": "<="}
+        col = _col_of(node.left, frame)
+        if col is not None:
+            return {(col, txt, resolve(node.comparators[0]))}
+        col = _col_of(node.comparators[0], frame)
+        if col is not None:
+            return {(col, flip[txt], resolve(node.left))}
+        return None
     if isinstance(node, ast.Name):
         r = resolve(node)
         if isinstance(r, frozenset):
